@@ -41,6 +41,7 @@ import (
 	"github.com/gotd/log"
 
 	"github.com/gotd/td/bin"
+	"github.com/gotd/td/internal/verifhook"
 	"github.com/gotd/td/mt"
 	"github.com/gotd/td/mtproto"
 	"github.com/gotd/td/proto"
@@ -207,6 +208,10 @@ type caseIn struct {
 	// Other: a second frame handled while the first is parked at its ParkAt-th log record.
 	Other  string `json:"other,omitempty"`
 	ParkAt int    `json:"park_at,omitempty"`
+	// Race: both frames name the same pending request RaceID and are handled at once; the two
+	// goroutines are released together at the rpc engine's handler entry (verifhook barrier).
+	Race   bool  `json:"race,omitempty"`
+	RaceID int64 `json:"race_id,omitempty"`
 	data   []byte
 	other  []byte
 }
@@ -281,9 +286,24 @@ func runCase(in *caseIn) caseOut {
 			err = conn.VerifHandleMessage(in.MsgID, &bin.Buffer{Buf: append([]byte{}, in.data...)})
 		})
 	} else {
-		// frame A runs until its ParkAt-th log record, frame B runs to completion, A resumes
-		pk.k.Store(int32(in.ParkAt))
-		pk.armed.Store(true)
+		// frame A runs until its ParkAt-th log record, frame B runs to completion, A resumes;
+		// or (Race) both run at once and meet at the entry of the engine's result handler
+		if in.Race {
+			var arrived atomic.Int32
+			target := in.RaceID
+			verifhook.Set(func(point string, key int64) {
+				if point != "rpc.handler.enter" || key != target {
+					return
+				}
+				arrived.Add(1)
+				for t0 := time.Now(); arrived.Load() < 2 && time.Since(t0) < 50*time.Millisecond; {
+				}
+			})
+			defer verifhook.Set(nil)
+		} else {
+			pk.k.Store(int32(in.ParkAt))
+			pk.armed.Store(true)
+		}
 		doneA := make(chan struct{})
 		var errA error
 		var panA bool
@@ -294,9 +314,11 @@ func runCase(in *caseIn) caseOut {
 			})
 			close(doneA)
 		}()
-		select {
-		case <-pk.parked:
-		case <-doneA:
+		if !in.Race {
+			select {
+			case <-pk.parked:
+			case <-doneA:
+			}
 		}
 		pk.armed.Store(false)
 		var errB error
@@ -1006,6 +1028,27 @@ func interleaved(r *hx.Rand) *caseIn {
 		ParkAt: r.Range(1, 4), Stream: "interleaved", Pending: []int64{x, y}, Truth: []truth{ta, tb}}
 }
 
+// raced: the same notification for ONE pending request arrives in two frames that readLoop
+// would handle in two goroutines at once (a re-sent rpc_result, or a result and a bad_msg).
+func raced(r *hx.Rand) *caseIn {
+	x := (int64(r.U64()) &^ 3) | 4
+	body := enc(&tg.User{ID: x, FirstName: string(r.Bytes(r.Range(1, 20)))})
+	res := enc(&proto.Result{RequestMessageID: x, Result: body})
+	var b []byte
+	switch r.Intn(4) {
+	case 0:
+		b = enc(&mt.BadMsgNotification{BadMsgID: x, BadMsgSeqno: 1, ErrorCode: 35})
+	case 1:
+		b = container(r, res)
+	case 2:
+		b = enc(&proto.Result{RequestMessageID: x, Result: gz(body)})
+	default:
+		b = res
+	}
+	return &caseIn{MsgID: int64(r.U64()) | 1, Hex: hex.EncodeToString(res), data: res, Other: hex.EncodeToString(b), other: b,
+		Race: true, RaceID: x, Stream: "raced", Pending: []int64{x}, OracleOnly: true}
+}
+
 func main() {
 	nestSpec := flag.String("nest", "", "(internal) child mode layers:levels:maxstackMB")
 	c := hx.Start("C23", "Run.Check_C23", 60)
@@ -1097,6 +1140,9 @@ func main() {
 	}
 	for k := 0; k < c.N(120, 4000); k++ {
 		h.one(interleaved(c.Rng), false)
+	}
+	for k := 0; k < c.N(400, 10000); k++ {
+		h.one(raced(c.Rng), false)
 	}
 	// 2. generated service messages, their mutants
 	nGen := c.N(700, 20000)
